@@ -1,6 +1,6 @@
 (* C05 — types, values and operations survive encoding and decoding unchanged: property-level theorems.
    Models: model/Codec.v (+ SerialTypes.v) over the shared model/Types.v; spec: spec/CodecS.v. *)
-From Coq Require Import NArith List Bool Arith.
+From Coq Require Import NArith List Bool Arith Permutation.
 Import ListNotations.
 From HV Require Import lib.Harness model.Types model.SerialTypes model.Codec model.CodecVals model.CodecOps model.CodecDoc
   spec.CodecS proofs.CodecP proofs.CodecValsP proofs.CodecOpsP proofs.CodecDocP.
@@ -123,6 +123,46 @@ Theorem C05_reserial_edges_kept : forall H SH (h_dec : SH -> H) h_type sh_norm s
   Forall2 edge_kept (sd_edges SH s) (sd_edges SH (sdoc_norm H SH h_dec h_type (sop_norm_h SH sh_norm) s)).
 Proof. exact doc_edges_kept. Qed.
 
+(* The property promises every edge, not its place in the `edges` array (nor does the format give that place a
+   meaning).  The two theorems above are about the emission order of the code as it stands (insertion order of the
+   links); the statements below are the ones the run module is held to, and they hold for EVERY order in which an
+   implementation lists the links ([ord]: any function returning a permutation of its argument): the document
+   written is [sdoc_norm s] up to the order of its edge list ([sdoc_same]: nodes and metadata by index, edges as a
+   multiset), and every edge of the input has its own edge in the output ([edges_kept_ms]: a matching, so no
+   edge is lost, duplicated or invented), between the same nodes, given offsets unchanged, null offsets filled in. *)
+Theorem C05_reserial_preserves_any_order : forall H SH (h_enc : H -> SH) h_dec h_type sh_norm sh_wf,
+  (forall sh, sh_wf sh = true -> h_enc (h_dec sh) = sh_norm sh) ->
+  forall ord, (forall l, Permutation (ord l) l) ->
+  forall s, forallb (sop_wf SH sh_wf) (sd_nodes SH s) = true ->
+    sdoc_same SH (to_serial_ord H SH h_enc h_type ord (from_serial H SH h_dec h_type s))
+                 (sdoc_norm H SH h_dec h_type (sop_norm_h SH sh_norm) s).
+Proof. exact doc_reserial_any_order. Qed.
+
+Theorem C05_reserial_edges_kept_perm : forall H SH (h_dec : SH -> H) h_type sh_norm s out,
+  edges_wf H SH h_dec h_type s = true ->
+  Permutation out (sd_edges SH (sdoc_norm H SH h_dec h_type (sop_norm_h SH sh_norm) s)) ->
+  edges_kept_ms (sd_edges SH s) out.
+Proof. exact doc_edges_kept_perm. Qed.
+
+Theorem C05_reserial_edges_kept_any_order : forall H SH (h_enc : H -> SH) h_dec h_type sh_norm sh_wf,
+  (forall sh, sh_wf sh = true -> h_enc (h_dec sh) = sh_norm sh) ->
+  forall ord, (forall l, Permutation (ord l) l) ->
+  forall s, forallb (sop_wf SH sh_wf) (sd_nodes SH s) = true -> edges_wf H SH h_dec h_type s = true ->
+    edges_kept_ms (sd_edges SH s) (sd_edges SH (to_serial_ord H SH h_enc h_type ord (from_serial H SH h_dec h_type s))).
+Proof. exact doc_edges_kept_any_order. Qed.
+
+(* what the monitor's document clause (run/C05Run.v [dmon]: [sdoc_sameb reser (sdoc_norm s)]) establishes about the
+   observed re-saved document [reser], whatever order its edges are in *)
+Theorem C05_doc_monitor_sound : forall H SH (h_dec : SH -> H) h_type sh_norm sh_eqb s (reser : sdoc SH),
+  edges_wf H SH h_dec h_type s = true ->
+  sdoc_sameb SH sh_eqb reser (sdoc_norm H SH h_dec h_type (sop_norm_h SH sh_norm) s) = true ->
+  edges_kept_ms (sd_edges SH s) (sd_edges SH reser).
+Proof. exact doc_monitor_sound. Qed.
+(* the multiset comparison accepts whatever the positional one accepted *)
+Theorem C05_doc_positional_implies_multiset : forall SH sh_eqb (a b : sdoc SH),
+  sdoc_eqb SH sh_eqb a b = true -> sdoc_sameb SH sh_eqb a b = true.
+Proof. exact sdoc_eqb_sameb. Qed.
+
 Theorem C05_reserial_metadata_kept : forall H SH (h_dec : SH -> H) h_type sh_norm s idx,
   idx < length (sd_nodes SH s) ->
   get_meta (sd_meta SH (sdoc_norm H SH h_dec h_type (sop_norm_h SH sh_norm) s)) idx = get_meta (sd_meta SH s) idx.
@@ -151,5 +191,10 @@ Print Assumptions C05_extop_comes_back_opaque.
 Print Assumptions C05_op_reserial.
 Print Assumptions C05_reserial_preserves.
 Print Assumptions C05_reserial_edges_kept.
+Print Assumptions C05_reserial_preserves_any_order.
+Print Assumptions C05_reserial_edges_kept_perm.
+Print Assumptions C05_reserial_edges_kept_any_order.
+Print Assumptions C05_doc_monitor_sound.
+Print Assumptions C05_doc_positional_implies_multiset.
 Print Assumptions C05_reserial_metadata_kept.
 Print Assumptions C05_reserial_any_depth.
